@@ -996,18 +996,20 @@ Definition set_contact_urns (s : session) (f : list urn -> list urn) : session :
              (s_input s) (s_parent s) (s_child s).
 
 Lemma add_urn_refuted_witness :
-  exists e s t u, redact e = true /\ session_twin s t /\
-    ~ Forall2 urn_twin (add_urn [ex_tel "+12065551212"] u) (add_urn [ex_tel "+12065553434"] u) /\
+  exists e s t c d u, redact e = true /\ session_twin s t /\
+    s_contact s = Some c /\ s_contact t = Some d /\
+    ~ Forall2 urn_twin (add_urn (c_urns c) u) (add_urn (c_urns d) u) /\
     root_context e (set_contact_urns s (fun us => add_urn us u))
       <> root_context e (set_contact_urns t (fun us => add_urn us u)).
 Proof.
   exists ex_env, (ex_session ex_one_channel [ex_tel "+12065551212"]),
-         (ex_session ex_one_channel [ex_tel "+12065553434"]), (ex_tel "+12065551212").
+         (ex_session ex_one_channel [ex_tel "+12065553434"]),
+         (ex_contact [ex_tel "+12065551212"]), (ex_contact [ex_tel "+12065553434"]), (ex_tel "+12065551212").
   split; [reflexivity|]. split.
   - exists (Some (ex_contact [ex_tel "+12065553434"])), None, None, None.
     repeat split; try constructor. exists [ex_tel "+12065553434"]. split; [|reflexivity].
     constructor; [repeat split | constructor].
-  - split.
+  - split; [reflexivity|]. split; [reflexivity|]. split.
     + vm_compute. intro H. inversion H as [|? ? ? ? _ T]; subst. inversion T.
     + intro H.
       apply (f_equal (fun v => lookup v [Key "contact"; Key "urns"; Idx 1])) in H.
